@@ -10,6 +10,15 @@ import (
 func (s *Translator) translateMatch(match *cypher.Match) error {
 	currentQueryPart := s.query.CurrentPart()
 
+	// The frame the MATCH starts from. An OPTIONAL MATCH is joined back to it, however many frames its
+	// pattern parts and traversal steps push. When the MATCH opens a query part that ends in WITH, the current
+	// frame is the wrapper frame of that part, which is still being defined: the rows are those of the frame
+	// before the wrapper.
+	originFrame := s.scope.CurrentFrame()
+	if originFrame != nil && currentQueryPart.Frame == originFrame {
+		originFrame = originFrame.Previous
+	}
+
 	for _, part := range currentQueryPart.ConsumeCurrentPattern().Parts {
 		if !part.IsTraversal {
 			if err := s.translateNonTraversalPatternPart(part); err != nil {
@@ -42,21 +51,21 @@ func (s *Translator) translateMatch(match *cypher.Match) error {
 	// If there is no valid previous frame, skip translating an `OPTIONAL MATCH`/treat as plain `MATCH`
 	if match.Optional {
 		if _, hasValidPrevious := s.previousValidFrame(s.scope.CurrentFrame()); hasValidPrevious {
-			return s.translateOptionalMatch()
+			return s.translateOptionalMatch(originFrame)
 		}
 	}
 
 	return nil
 }
 
-func (s *Translator) translateOptionalMatch() error {
+func (s *Translator) translateOptionalMatch(originFrame *Frame) error {
 	// Building this aggregation step requires pushing another frame onto the scope
 	aggrFrame, err := s.scope.PushFrame()
 	if err != nil {
 		return err
 	}
 
-	query, err := s.buildOptionalMatchAggregationStep(aggrFrame)
+	query, err := s.buildOptionalMatchAggregationStep(aggrFrame, originFrame)
 	if err != nil {
 		return err
 	}
@@ -83,14 +92,12 @@ func (s *Translator) translateOptionalMatch() error {
 
 // buildOptionalMatchAggregationStep constructs a "merge" frame to insert after an `OPTIONAL MATCH`,
 // which requires a subsequent "aggregation" step to collate the optional match to the initial result set.
-func (s *Translator) buildOptionalMatchAggregationStep(aggregationFrame *Frame) (pgsql.Query, error) {
+func (s *Translator) buildOptionalMatchAggregationStep(aggregationFrame, originFrame *Frame) (pgsql.Query, error) {
 	// An "aggregation" frame like this will only be triggered after an OPTIONAL MATCH, which should only
 	// take place AFTER `n>=1` previous MATCH expressions. To properly base the aggregation, we need to
-	// join to the origin frame (prior to the OPTIONAL MATCH) based on the OPTIONAL MATCH's frame.
-	var (
-		optMatchFrame = aggregationFrame.Previous
-		originFrame   = optMatchFrame.Previous
-	)
+	// join to the origin frame (prior to the OPTIONAL MATCH) based on the OPTIONAL MATCH's last frame, which
+	// carries the bindings of every frame the pattern pushed.
+	optMatchFrame := aggregationFrame.Previous
 
 	// originFrame could be nil if no previous frame is defined (for ex., leading OPTIONAL MATCH, which is
 	// valid but effectively a plain MATCH)
